@@ -90,6 +90,11 @@ def run(ctx):
         views = []
         for doc, g, _ in batch[:40]:
             if g.time_units != "generations":
+                # (the original has answered lookups before the view is taken: whatever a deme remembers from
+                # them must not be carried into the view, whose times are in other units)
+                for d in g.demes:
+                    for t in list(probes(d))[:4]:
+                        d.size_at(t)
                 v = g.in_generations()
                 views.append(({"in_generations_of": doc}, v, None))
         batch = batch + views
@@ -130,7 +135,7 @@ def run(ctx):
                     why = bounds_ok(d, t, v)
                     if why:
                         if "in_generations_of" in doc:
-                            rp = py_repro(doc["in_generations_of"], f"g.in_generations()[{d.name!r}].size_at({t!r})")
+                            rp = py_repro(doc["in_generations_of"], f"[x.size_at(x.end_time) for x in g.demes] and g.in_generations()[{d.name!r}].size_at({t!r})")
                         else:
                             rp = py_repro(doc, f"g[{d.name!r}].size_at({t!r})")
                         ctx.violation("size_at: " + why, {"document": doc, "deme": d.name, "t": show(canon(t))}, python=rp)
